@@ -42,7 +42,7 @@ import pandas as pd  # noqa: E402
 
 PROP = "C16"
 NPROC = 16
-WX_Y0, WX_Y1 = 1998, 2007
+WX_Y0, WX_Y1 = 1998, 2016
 BASE_YEAR = 2000
 
 CROPS = ["Barley", "BarleyGDD", "Cotton", "CottonGDD", "Default", "DryBean", "DryBeanGDD", "Maize", "MaizeGDD",
@@ -65,7 +65,8 @@ DIMS = [
     ("iwc", ["FC", "WP", "SAT", "Pct50", "PctMix", "NumDepth", "PropDepth", "PctDepth"]),
     ("co2", ["default", "const450", "const0", "const300", "const700", "custom_series"]),
     ("planting", ["05/01", "01/01", "02/28", "03/01", "07/15", "10/01", "12/31"]),
-    ("window", ["full", "multi", "partial", "late_start", "no_season", "leap_start", "leap_end", "short_around_planting"]),
+    ("window", ["full", "multi", "partial", "late_start", "no_season", "leap_start", "leap_end", "short_around_planting",
+                "end_on_planting_day", "end_day_before_planting", "decadal_co2_years"]),
     ("off_season", [False, True]),
     ("ETadj", [1, 0]),
     ("PlantMethod", ["crop", 0, 1]),
@@ -151,6 +152,13 @@ def window_of(row):
         s, e = dt.date(2003, 1, 15), dt.date(2004, 2, 29)
     elif w == "short_around_planting":
         s, e = P - D(5), P + D(30)
+    elif w == "end_on_planting_day":
+        s, e = P, dt.date(P.year + 1, P.month, P.day)          # the window ends exactly on next year's planting day
+    elif w == "end_day_before_planting":
+        s, e = P, dt.date(P.year + 1, P.month, P.day) - D(1)
+    elif w == "decadal_co2_years":
+        s = dt.date(2013, P.month, P.day)                       # years that are not rows of the default CO2 table (decadal after 2010)
+        e = s + D(400)
     else:
         raise ValueError(w)
     return s, e
